@@ -488,8 +488,14 @@ def run_unit(name, tier, workdir, cfg, extra_defs=(), tag="p"):
             ur.results.append({"id": r.get("property"), "cls": classify(r), "desc": r.get("description", ""),
                                "status": r.get("status"), "file": loc.get("file", ""), "line": loc.get("line", ""),
                                "function": loc.get("function", "")})
-        # structure / vacuity
-        sfail = [r for r in ur.results if r["cls"] == "structure" and r["status"] != "SUCCESS"]
+        # structure / vacuity.  A counterexample to a contract/safety/spec obligation is a real execution of the
+        # code whatever else failed, so candidate violations take precedence over structural failures.
+        sfail = [r for r in ur.results if r["cls"] == "structure" and r["status"] == "FAILURE"]
+        if sfail and ur.failed():
+            ur.status = "failed"
+            ur.reason = "also structural: %s" % sfail[0]["desc"]
+            ur.wall = time.time() - t0
+            return ur
         if sfail:
             ur.reason = "structural obligation failed: %s (%s)" % (sfail[0]["id"], sfail[0]["desc"])
             ur.wall = time.time() - t0
